@@ -454,6 +454,9 @@ func runCase(c caseT) (viol []string, forced bool) {
 	if err := g.Publish("T", message.NewMessage("late", nil)); err == nil {
 		bad("close: Publish after Close returned nil")
 	}
+	if err := g.Publish("T"); err == nil {
+		bad("close: Publish without messages after Close returned nil (decorators make such calls; closed is closed)")
+	}
 	if _, err := sub.Subscribe(context.Background(), "T"); err == nil {
 		bad("close: Subscribe after Close returned nil")
 	}
